@@ -46,6 +46,30 @@ TRUSTED_BASE = [
 ]
 
 
+WORKERS = int(os.environ.get("VERIF_WORKERS", "1") or 1)
+WORKER = int(os.environ.get("VERIF_WORKER", "0") or 0)
+
+
+def share(iterable):
+    """In a multi-worker (thorough) run each worker takes every WORKERS-th case."""
+    if WORKERS <= 1:
+        yield from iterable
+        return
+    for i, x in enumerate(iterable):
+        if i % WORKERS == WORKER:
+            yield x
+
+
+ASSUMPTIONS = [
+    "the theorems are about the Gallina model; the model is tied to the code only by this run's differential correspondence "
+    "(finite sample of traces) and by the tables regenerated from the source",
+    "time is the virtual clock installed over spacepackets.countdown.time_ms; PDUs cross the harness as packed bytes",
+    "spacepackets, crcmod and the CPython runtime behave as the harness observes them (they are modelled, not verified)",
+    "oracle verdicts on implementation traces read only public observables (returned PDUs, indications, fault callbacks, "
+    "raised exceptions, file contents)",
+]
+
+
 def log(*a):
     print(*a, file=sys.stderr, flush=True)
 
@@ -90,6 +114,9 @@ def build(quiet=True) -> dict:
     """Regenerate gen/Tables.v from /repo/src, run make (full .vo build, incremental, -k so that one
     broken proof does not hide the others), extract the model, build the OCaml runner."""
     if "report" in _BUILD_CACHE:
+        return _BUILD_CACHE["report"]
+    if os.environ.get("VERIF_SKIP_GATE"):    # worker of a thorough run: the parent has built and gated already
+        _BUILD_CACHE["report"] = {"ok": True, "log": "", "tables": None, "failed_files": [], "forbidden": [], "wall_s": 0}
         return _BUILD_CACHE["report"]
     t0 = time.time()
     report = {"ok": True, "log": "", "tables": None, "failed_files": [], "forbidden": []}
@@ -265,7 +292,7 @@ class Verdict:
         self.known_hits = {}      # finding id -> what
         self.t0 = time.time()
         self.coverage = {}
-        self.assumptions = []
+        self.assumptions = list(ASSUMPTIONS)
         self.notes = []
 
     def violation(self, what: str, replay: dict, has_input: bool = True):
@@ -276,6 +303,11 @@ class Verdict:
 
     def finish(self, level="proof") -> int:
         EVIDENCE.mkdir(exist_ok=True)
+        wk = os.environ.get("VERIF_WORKER_OUT")
+        if wk:      # worker of a multi-process thorough run: hand everything to the parent
+            Path(wk).write_text(json.dumps({"coverage": self.coverage, "violations": self.violations, "known": self.known_hits,
+                                            "notes": self.notes, "assumptions": self.assumptions}, default=str))
+            return 1 if self.violations else 0
         cov = dict(self.coverage)
         ev = {
             "property_id": self.prop, "tier": self.tier, "seed": self.seed, "level": level,
@@ -312,6 +344,10 @@ def proof_gate(v: Verdict, prop: str, extra_props=()):
     """Build, account for the property's proof obligations, and register a (no-input) violation if the
     proofs no longer check.  Returns (build_report, proof_report)."""
     b = build()
+    if os.environ.get("VERIF_SKIP_GATE"):
+        v.proof_ok, v.proof_error = True, None
+        v.coverage.update({"obligations": 0, "discharged": 0, "checker_cmd": "", "trusted_base": TRUSTED_BASE})
+        return b, {"ok": True}
     pr = proof_report(prop)
     ob, di = pr["obligations"], pr["discharged"]
     for p2 in extra_props:
